@@ -70,6 +70,28 @@ KINDS4 = {
  "C19":"behaviour that only differs for n above 8..20 or after more than a threshold number of iterations (for example a periodic re-normalisation or an early-stagnation test every k-th iteration)",
  "C20":"a guard that is skipped or weakened for LARGE inputs ('too expensive to check', sampling only part of the entries, checking only a leading block) so that out-of-domain arguments above a size threshold are answered",
 }
+KINDS5 = {
+ "C01":"a call form or argument relation rather than the data: the SAME array object passed as both factors (A @ A), an operand that is a view of the other, a result fed back as an operand, mixed dense/sparse operands in an unusual order, or an optional argument left at its default",
+ "C02":"a rarely used call form: optional arguments omitted or passed as None, inputs that are views of each other, or helper variants (component-form functions such as Realp / A2A0123 and their inverses) for particular argument combinations",
+ "C03":"the behaviour when optional constructor arguments are omitted or None (default gamma / tol / max_iter / compute_residuals / verbose), or when the returned tuple / history dictionary is used in a less common way (history keys, lengths, types)",
+ "C04":"the behaviour for default or None arguments (tol, max_iter, preconditioner=None vs 'none'), for a right-hand side passed in a less common form (1-D array, several columns, a view of A), or the contents of less-used info keys",
+ "C05":"the call forms: truncation rank R equal to min(m,n), R passed as numpy integer, or the relation between the three outputs (ordering of the tuple, shapes/dtypes of s) for particular inputs",
+ "C06":"call forms and argument relations: input that is a view / slice of a larger array, a 1-D input, an input that is later modified (returned factors must not alias it), or dtype/shape of the outputs",
+ "C07":"the return_p flag and output aliasing: the two output modes for the same input object called in sequence, outputs that share memory with the input or with each other, or the permutation output's dtype/exactness",
+ "C08":"the wrappers (quaternion_eigenvalues, quaternion_eigenvectors) and optional arguments (verbose and similar), or outputs that alias the input / each other",
+ "C09":"the helpers is_hessenberg / check_hessenberg and their optional tolerances (default vs explicit, None), or aliasing between the returned H, P and the argument",
+ "C10":"the default arguments (max_iter / tol / shift omitted), the non-diagnostic return form (return_diagnostics=False vs True must give the same Q, T), or verbose mode",
+ "C11":"the wrappers and options: quat_null_right / quat_null_left / quat_kernel vs quat_null_space(side=...), the optional rtol / tol arguments (default, None, explicit), and the determinant type spellings",
+ "C12":"the default arguments (oversample, n_iter, n_passes omitted) or non-default but valid values (oversample=0, n_iter=0, n_passes=1), or R given as numpy integer",
+ "C13":"constructor defaults (block_size, test_sketch_size, column_solver, seed omitted) and the info dictionary returned (keys, the 'converged' flag type, iteration counts) for default configurations",
+ "C14":"aliasing and call forms: the same array passed to two parameters, an argument that is a view of another argument, results of a previous call passed back in, positional vs keyword calls - something that makes a function modify or depend on its arguments only in that form",
+ "C15":"the 'ord' argument forms (None, 'fro', 'F', 1, 2, np.inf, float('inf'), strings) and the agreement of the specialised functions with the unified interface for default arguments",
+ "C16":"call forms: right-hand sides given as 1-D arrays or as views of the matrix, the optional tol argument of the triangular solver (default vs explicit), or the exact return types/shapes",
+ "C17":"optional arguments of the blur / restoration functions (boundary mode default vs explicit, lambda given as int or numpy scalar, PSF given as integer array or not normalised) ",
+ "C18":"optional arguments and call forms of the tensor / metric / conversion helpers (data_range or peak value defaults, mode given as numpy integer, clip flags, seeds of the noise generator omitted or None)",
+ "C19":"optional arguments (max_iterations, tol, return_eigenvalue, verbose omitted or None), the relation between the different return forms, or a start vector supplied by the caller if the API allows it",
+ "C20":"guards that depend on HOW the argument is passed: keyword vs positional, numpy integer vs int for option values, list instead of array, a subclass / view / read-only array - an out-of-domain argument in such a form gets through, or an in-domain one in such a form is rejected",
+}
 T = '''You are helping to evaluate a verification tool for the open-source Python library QuatIca (quaternion numerical linear algebra). Your job: act as a "mutation author". You are given ONE semantic property that the library is supposed to satisfy, and your own scratch git worktree of the repository. Produce a realistic, subtle code change to the library that BREAKS this property while the library still imports fine and the repository's existing test suite still passes.
 
 ## The property
@@ -106,8 +128,10 @@ for l in open("/verif/properties.jsonl"):
         kind = f"For this task, aim your change at: {KINDS[pid]}.\n"
     if rnd == 3:
         kind = f"For this task, aim your change at: {KINDS3[pid]}.\n"
-    if rnd >= 4:
+    if rnd == 4:
         kind = f"For this task, aim your change at: {KINDS4[pid]}.\n"
+    if rnd >= 5:
+        kind = f"For this task, aim your change at: {KINDS5[pid]}.\n"
     txt = T.format(title=p["title"], statement=p["statement"], quant=p["quantifier"]["text"], files=", ".join(p["anchors"]["files"]), wt=wt, pid=pid, kind=kind)
     open(os.path.join(out, "prompts", pid + ".txt"), "w").write(txt)
 print("prompts in", os.path.join(out, "prompts"))
